@@ -259,7 +259,9 @@ def run(ctx, col: Collector):
         col.check(okc, 'C04-roles', 'col_names:order', 'composite references keep their column order', f'col_names iterates `{norm(comps[0].generators[0].iter) if comps else "?"}`'
                   f'{" with a filter" if comps and comps[0].generators[0].ifs else ""} instead of the side as given', node=cn.node, file=cn.file)
         # the parser keeps the column order written in the reference
-        rb = idx.func('pydbml.parser.blueprints', 'ReferenceBlueprint.build')
+        rb0 = idx.func('pydbml.parser.blueprints', 'ReferenceBlueprint.build')
+        from ..inline import inlined_info
+        rb = inlined_info(idx, rb0, 2, keep={'locate_table', 'Reference'})
         rcall = [c for c in ast.walk(rb.node) if isinstance(c, ast.Call) and norm(c.func) == 'Reference']
         if not rcall:
             raise Unrecognised('ReferenceBlueprint.build does not construct Reference', rb.node)
@@ -268,9 +270,13 @@ def run(ctx, col: Collector):
                 continue
             side = kwd.arg[-1]
             val = kwd.value
-            if isinstance(val, ast.Name):
+            for _ in range(4):
+                if not isinstance(val, ast.Name):
+                    break
                 asg = [n for n in walk_no_nested(rb.node) if isinstance(n, ast.Assign) and norm(n.targets[0]) == val.id]
-                val = asg[-1].value if asg else val
+                if len(asg) != 1:
+                    break
+                val = asg[-1].value
             verdict, why = composite_order(idx, rb, val, side)
             cons = f'ReferenceBlueprint.build:{kwd.arg}:written-order'
             if verdict == 'ok':
